@@ -72,6 +72,36 @@ CLAIMED = {
         "configure_clean (from any sign state some history can produce, with any idle other signs on the bus: ok, sign = configured as t, no pages, others untouched), send_pages_exact (the sign then holds exactly the pages sent, in order, byte-identical; page-loaded / showing-pages; returns the matching flip style), configure_then_send, show_manual / load_manual / show_load_auto_noop (fuel >= 3), configureIfNeeded_not_ready / configureIfNeeded_ready, dims_ok for all 11 types. Tie: for all 11 types x both styles x sampled addresses, prior-state walks (mid-configuration, other type, abandoned or half-finished transfer, pages loaded/shown, ready-to-reset) then configure / configure-if-needed, send 0..3 random pages, show, load-next, send again, shut down through the real Sign on the real VirtualSignBus, compared with the model's runOn and with direct expectations on state / type / pages.",
         "Hypotheses: the sign satisfies the reachable-state invariant (proved for every history: VSign.Reachable.inv), other signs are idle (not mid-transfer), fewer than 65536 chunks per transfer and pages of at most 65536 bytes (16-bit counter / offset limits of the real controller; true of all 11 sign types). std Vec / Rc<RefCell> plumbing is outside the model.",
         "§6 C08"),
+    "C03": (
+        "Lean 4 theorems on a hand-written model + differential correspondence model vs code; the model decoder is a hand parser independent of the regex crate",
+        "dec_classified (total; only invalid / mismatch / badsum / ok — never DataTooLong), dec_err_invalid_iff (InvalidFrame iff the string is not ':' + even number >= 10 of hex digits of either case + optional single CR LF, stated declaratively as Shape), dec_of_shape (length test before checksum test, with the reported numbers), dec_err_mismatch_iff, dec_err_badsum_iff, dec_ok_iff (accepted iff the numeric fields are payload f ++ [lrc]), reenc (re-encoding gives ':' + the same digits upper-cased) — for all byte strings. Tie: Frame::from_bytes vs the model on every string of length <= 3 (thorough 4) over a 19-symbol structural alphabet, those strings spliced into seed frames, doubled / bare terminators, two frames back to back, and random strings and multi-edits up to 600 bytes over all byte values; an independent Rust hand parser is the third opinion.",
+        "Rust regex semantics ($ = end of haystack only, [[:xdigit:]] ASCII, (?x) mode) are checked by the differential run, not proved.",
+        "§6 C03"),
+    "C15": (
+        "Lean 4 theorems on a hand-written model + differential correspondence model vs code; std I/O modelled from its documented contracts",
+        "read_consumes_line (consumes up to and including the first LF and not one byte more, result = decoding of that line, for every interleaving of interrupted reads), read_interrupt_invariant, reads_back_to_back, read_error_surfaces, read_eof, write_delivers (any schedule of partial accepts and interrupts), write_only_the_encoding (delivered bytes are always a prefix of the encoding; success only when all delivered), writeAll_error_surfaces. Tie: Frame::read / Frame::write on instrumented Read / Write: every composition of a 13-byte stream into read sizes, every placement of <= 2 interrupts, error / zero-length read at every call index, 1..3 frames + trailing bytes with random fragmentation, leftover bytes compared; the same for writes.",
+        "PARTIAL by nature: BufReader::with_capacity(1)/read_until and write_all are modelled (one byte per read call, retry on Interrupted, zero-length read = end of stream, zero-length write = error); the theorems are about that model; the instrumented streams check the composite, in particular that not one byte beyond the LF is consumed when larger chunks are available.",
+        "§6 C15"),
+    "C16": (
+        "Lean 4 theorems on a hand-written model + differential correspondence model vs code",
+        "events_shape (exactly: one write of the frame encoding with CRLF; then a read iff the write succeeded and the message is hello / query / request), writes_exact, reads_iff_expected (at most one Frame::read), write_failure_is_error, no_read_otherwise, reply_is_decoded (result = decoding of exactly one line, or an error; never a missing or invented reply), responseExpected_iff. Tie: SerialSignBus::process_message on an instrumented SerialPort for every message kind x reply tapes (13 states, 6 acks, unknown, data, malformed, bad checksum, empty) with extra bytes after the reply line, write failures at the first / a later call, read failures.",
+        "Builds on the C15 stream model; thread::sleep is outside (C18).",
+        "§6 C16"),
+    "C17": (
+        "Lean 4 theorems on a hand-written model + differential correspondence model vs code; exact simulation theorem between the serial path and the direct path",
+        "read_written / wire_lossless (message -> frame -> bytes -> line -> frame -> message is the identity on canonical messages), canonical_toMsg, odk_forwards, odk_bad_line (undecodable line = communication error, bus untouched, nothing written), busStep_reply (a virtual bus replies only where a reply is due, with a canonical message), viaSerial_eq, runVia_eq_runStrict (the whole path Sign -> SerialSignBus -> bytes -> Odk -> VirtualSignBus equals the direct run except that an unanswered due reply is a bus error; nothing is left in the pipe), runStrict_eq_runOn / transparent_partial, configure/sendPages/shutDown canonical. Tie: operation sequences run through the real serial path over an in-memory byte pipe and directly, success and final state/type/pages compared with each other and with the model; raw valid / unknown / invalid lines injected at the bridge.",
+        "PARTIAL: the last step (a controller operation cannot succeed directly while a due reply went unanswered) is proved only up to the hypothesis Answered; it is covered per operation by C11's fail-stop theorems plus present_answers, and end to end by the correspondence. Real serial ports and timeouts are outside the model.",
+        "§6 C17"),
+    "C18": (
+        "Lean 4 theorems on a hand-written model + differential correspondence model vs code; wall-clock time measured, sleep events proved",
+        "sleep_after_send_iff (a 30 ms pause directly after the write iff the message is a data chunk), sleep_after_recv_iff (100 ms after the read iff the reply is a page-load / page-show in-progress report), no_recv_sleep_without_reply, no_sleep_after_failed_write, delayAfterSend_iff / delayAfterReceive_iff. Tie: a monotonic clock at the instrumented port's write / read calls and at return: >= 30 ms / >= 100 ms lower bounds on paced exchanges, minimum over up to 5 trials below half the delay on unpaced ones, anything in between reported.",
+        "PARTIAL by nature: a theorem cannot observe elapsed time; thread::sleep is modelled as an event and measured by the harness.",
+        "§6 C18"),
+    "C20": (
+        "Lean 4 theorems on a hand-written model + differential correspondence model vs code (exhaustive product of prior settings x failure points)",
+        "configured_19200_8N1 (for every prior device state), tryNew_timeout_5s, odk_timeout_10s, failure_returns_err, constructors_fail, ok_iff, early_failure_leaves_device. Tie: all 1008 prior PortSettings x failure at read_settings / set_baud_rate / write_settings / set_timeout / none x {SerialSignBus::try_new, Odk::try_new, configure_port} on an instrumented SerialDevice whose state is observable from outside; serial-core's blanket reconfigure runs for real.",
+        "PARTIAL: the device is modelled as a record; the weight is the exhaustive correspondence.",
+        "§6 C20"),
 }
 
 PENDING = {}
